@@ -29,8 +29,13 @@ def _norm(v):
     return v
 
 
-def canon(obj, ordered=True):
-    """Canonical, comparable form of a pandas result."""
+def canon(obj, ordered=True, labels=True):
+    """Canonical, comparable form of a pandas result.  labels=False: index labels are undefined (dropped)."""
+    if not labels and isinstance(obj, (pd.DataFrame, pd.Series)):
+        obj = obj.reset_index(drop=True)
+        c = canon(obj, True, True)
+        rows = [r[1:] for r in c[2]]
+        return (c[0], c[1], sorted(rows, key=repr) if not ordered else rows)
     if isinstance(obj, pd.DataFrame):
         rows = [(_norm(i),) + tuple(_norm(x) for x in r) for i, r in zip(obj.index.tolist(), obj.itertuples(index=False, name=None))]
         if not ordered:
@@ -128,6 +133,10 @@ def check_program(prog, tables, layout, rt, props, widen=None):
     stats = {}
     src = build_sources(tables, layout, rt)
     ordered = prog["ordered"]
+    labels = prog.get("labels", True)
+    _canon = canon
+    def canon_(o, ord_=True):
+        return _canon(o, ord_, labels)
     try:
         env = gen.run_program(prog, src, True)
     except Exception as ex:
@@ -143,7 +152,7 @@ def check_program(prog, tables, layout, rt, props, widen=None):
     # reference: lowered without any optimization
     un = try_(lambda: exec_expr(expr.lower_completely()))
     if un[0] == "ok":
-        un_c = try_(lambda: canon(concat_parts(un[1]), ordered))
+        un_c = try_(lambda: canon_(concat_parts(un[1]), ordered))
     else:
         un_c = un
     stats["unopt_ok"] = int(un_c[0] == "ok")
@@ -159,7 +168,7 @@ def check_program(prog, tables, layout, rt, props, widen=None):
                 if un_c[0] == "ok":
                     vio.append({"prop": "C19" if "does not converge" in r[1] else "C01", "stage": st, "what": "optimizer raises at stage %s (%s) but the unoptimized query computes" % (st, r[1])})
                 continue
-            res = try_(lambda r=r: canon(concat_parts(exec_expr(r[1])), ordered))
+            res = try_(lambda r=r: canon_(concat_parts(exec_expr(r[1])), ordered))
             if un_c[0] == "ok":
                 if res[0] == "raise":
                     vio.append({"prop": "C01", "stage": st, "what": "optimized plan (%s) fails: %s; unoptimized succeeds" % (st, res[1])})
@@ -168,12 +177,12 @@ def check_program(prog, tables, layout, rt, props, widen=None):
     # ---- C02: equals pandas
     if "C02" in props:
         if pref[0] == "ok":
-            pc = canon(pref[1], ordered)
+            pc = canon_(pref[1], ordered)
             if un_c[0] == "ok" and un_c[1] != pc and not _dtype_only(un_c[1], pc):
                 vio.append({"prop": "C02", "what": "result differs from pandas: %s vs pandas %s" % (_short(un_c[1]), _short(pc))})
             fin = staged["fused"]
             if fin[0] == "ok":
-                res = try_(lambda: canon(concat_parts(exec_expr(fin[1])), ordered))
+                res = try_(lambda: canon_(concat_parts(exec_expr(fin[1])), ordered))
                 if res[0] == "ok" and res[1] != pc:
                     vio.append({"prop": "C02", "what": "optimized result differs from pandas: %s vs pandas %s" % (_short(res[1]), _short(pc))})
                 elif res[0] == "raise":
@@ -188,8 +197,8 @@ def check_program(prog, tables, layout, rt, props, widen=None):
                     vio.append({"prop": "C14", "what": "fusion changes npartitions %d -> %d" % (len(pa[1]), len(pb[1]))})
                 else:
                     for i, (x, y) in enumerate(zip(pa[1], pb[1])):
-                        if canon(x, True) != canon(y, True):
-                            vio.append({"prop": "C14", "what": "fusion changes partition %d: %s vs %s" % (i, _short(canon(y, True)), _short(canon(x, True)))})
+                        if canon(x, ordered) != canon(y, ordered):
+                            vio.append({"prop": "C14", "what": "fusion changes partition %d: %s vs %s" % (i, _short(canon(y, ordered)), _short(canon(x, ordered)))})
                             break
                 if tuple(a[1].divisions) != tuple(b[1].divisions):
                     vio.append({"prop": "C14", "what": "fusion changes divisions %s -> %s" % (a[1].divisions, b[1].divisions)})
@@ -220,7 +229,7 @@ def check_program(prog, tables, layout, rt, props, widen=None):
             if o3[0] == "raise":
                 vio.append({"prop": "C19", "what": "optimizing an optimized plan raises %s" % o3[1]})
             elif un_c[0] == "ok":
-                r3 = try_(lambda: canon(concat_parts(exec_expr(o3[1])), ordered))
+                r3 = try_(lambda: canon_(concat_parts(exec_expr(o3[1])), ordered))
                 if r3[0] == "raise" or r3[1] != un_c[1]:
                     vio.append({"prop": "C19", "what": "optimize(optimize(q)) result differs: %s" % (_short(r3[1]),)})
         elif o1[0] == "raise" and "does not converge" in o1[1]:
